@@ -254,7 +254,7 @@ def bounded(run):
              f"Expectation only through expected_length")
     seeds = (0, 1, 2, 3) if tier == "quick" else (0, 1, 2, 3, 4, 5, 6, 7)
     run.extra["hash_seeds"] = list(seeds)
-    engine.run_cases(run, "props.C08", "check_case", cases, hash_seeds=seeds, per_case_timeout=60, split=(tier == "quick"))
+    engine.run_cases(run, "props.C08", "check_case", cases, hash_seeds=seeds, per_case_timeout=20, split=(tier == "quick"))
 
 
 def run(run, only=None):
